@@ -327,7 +327,19 @@ func checkC14(r *Run) {
 		r.Count("events.stage1.converter_calls", 1)
 		if rp.Panic != "" {
 			r.Eval()
-			r.Violation("converter-panics/"+maskMsg(truncate(rp.Panic, 90)), fmt.Sprintf("converter %sConverter panics on %s: %s", m.b.Name, m.doc.JSON(), rp.Panic), replayOf(m, ""))
+			key := "converter-panics/" + maskMsg(truncate(rp.Panic, 90))
+			if doc, ok := m.doc.Val.(map[string]any); ok {
+				for _, as := range m.b.Constructor.Assignments {
+					if as.Value.Argument == nil {
+						continue
+					}
+					if v, has := lookupPath(doc, pathIdents(as.Path)); !has || v == nil {
+						// root cause: constructor arguments of optional members are dereferenced without a nil guard
+						key = "converter-panics/optional-constructor-argument-absent"
+					}
+				}
+			}
+			r.Violation(key, fmt.Sprintf("converter %sConverter panics on %s: %s", m.b.Name, m.doc.JSON(), rp.Panic), replayOf(m, ""))
 			continue
 		}
 		if strings.TrimSpace(rp.Code) == "" {
@@ -351,13 +363,18 @@ func checkC14(r *Run) {
 		rp := resps[sc.ID]
 		r.Eval()
 		replay := replayOf(m, sc.Expr)
-		if diag, bad := broken[sc.ID]; bad && strings.Contains(diag, "time.Location") {
-			// time values with a zone offset are printed by cog.Dump, which the harness supplies from the repository's runtime snapshot
-			r.Count("printed_time_with_zone_offset_not_compilable(Dump helper, not judged)", 1)
-			continue
-		}
-		if diag, bad := broken[sc.ID]; bad {
-			r.Violation("printed-code-does-not-compile/"+c14MaskDiag(diag), fmt.Sprintf("the code printed by %sConverter for %s does not compile: %s\n%s", m.b.Name, m.doc.JSON(), diag, truncate(sc.Expr, 600)), replay)
+		if diags, bad := broken[sc.ID]; bad {
+			judged := 0
+			for _, diag := range diags {
+				if strings.Contains(diag, "time.Location") {
+					// time values with a zone offset are printed by cog.Dump, which the harness supplies from the repository's runtime snapshot
+					r.Count("printed_time_with_zone_offset_not_compilable(Dump helper, not judged)", 1)
+					continue
+				}
+				judged++
+				r.Violation("printed-code-does-not-compile/"+c14MaskDiag(diag), fmt.Sprintf("the code printed by %sConverter for %s does not compile: %s\n%s", m.b.Name, m.doc.JSON(), diag, truncate(sc.Expr, 600)), replay)
+			}
+			_ = judged
 			continue
 		}
 		bp, ok := built[sc.ID]
@@ -419,6 +436,21 @@ func checkC14(r *Run) {
 				continue
 			}
 			key := "rebuilt-object-differs/" + kind + "/" + tag
+			if kind == "missing" {
+				// was the option for this member printed at all?
+				first := strings.SplitN(strings.TrimPrefix(p, "."), ".", 2)[0]
+				if seen[normName(first)] == 0 {
+					key = "rebuilt-object-differs/option-not-printed/" + tag
+					if m, ok := jsonAt(v, "."+first).(map[string]any); ok {
+						for _, mv := range m {
+							if s, isStr := mv.(string); isEmptyColl(mv) && mv != nil || isStr && s == "" {
+								// root cause shared by many shapes: one empty member makes the guards drop the whole option
+								key = "rebuilt-object-differs/option-not-printed/struct-with-an-empty-member"
+							}
+						}
+					}
+				}
+			}
 			// root cause shared by many shapes: guards treat a zero value as "nothing to reproduce"
 			switch leaf := jsonAt(v, p).(type) {
 			case string:
@@ -524,6 +556,8 @@ var c14ColonTail = regexp.MustCompile(`: .*$`)
 // c14MaskDiag keeps what names the defect: what was printed, what was expected, for which option/constructor.
 func c14MaskDiag(diag string) string {
 	d := c14ValueOfRe.ReplaceAllString(diag, "")
+	d = regexp.MustCompile(`0x[0-9a-fA-F]+`).ReplaceAllString(d, "0xN")
+	d = regexp.MustCompile(`untyped int constant \d+`).ReplaceAllString(d, "untyped int constant N")
 	d = c14ColonTail.ReplaceAllString(d, "")
 	d = strings.ReplaceAll(d, "\"example.com/gen/", "\"")
 	d = regexp.MustCompile(`"s\d+/(pk|cog)"\.`).ReplaceAllString(d, "$1.")
